@@ -13,7 +13,7 @@
    Base_rn_to_rational) on the normalised operands and compares: representations through RefineCheck.same_number
    (rn_valid + rn_cmp = Some 0: valid and the same real number), scalars exactly. *)
 From Coq Require Import ZArith NArith List Bool.
-From LP Require Import Scalar UPoly RefAlg RefineCheck.
+From LP Require Import Scalar UPoly RefAlg RefineCheck AlgNum.
 Import ListNotations.
 Local Open Scope Z_scope.
 
@@ -34,6 +34,62 @@ Inductive c07_result :=
 | VNum (r : rnum) | VInt (z : Z) | VBool (b : bool) | VRat (q : rat)
 | VUndef.                           (* the library refused: division by / inverse of zero, root of a negative number *)
 
+(* ---------------------------------------------------------------- the reference operations with the Sturm chain of the
+   annihilating polynomial computed ONCE per operation.  RefAlg.rn_select re-computes `sturm_chain r` in every round of its
+   refinement loop (count_open); the chain of a degree-16 resultant costs about a second in the extracted arithmetic.
+   AlgNum.rv_select takes the chain function as an argument: with the constant function returning the chain computed up
+   front it IS RefAlg.rn_select (AlgNumCheckProofs.sel_sharedE), hence add_sh = rn_add, mul_sh = rn_mul, ... (add_shE ...),
+   and the theorems of Properties_Base.v apply to what is executed here. *)
+Definition sel_shared (fuel : nat) (r : poly) (encl : rnum -> rnum -> rat * rat) (x y : rnum) : option rnum :=
+  let ch := sturm_chain r in rv_select (fun _ => ch) fuel r encl x y.
+
+Definition add_sh (fuel : nat) (x y : rnum) : option rnum :=
+  match x, y with
+  | RQ a, RQ b => Some (RQ (q_add a b))
+  | _, _ =>
+    let r := psqfree (ann_add (rn_poly x) (rn_poly y)) in
+    sel_shared fuel r (fun x y => RefAlg.iv_add (rn_lo x) (rn_hi x) (rn_lo y) (rn_hi y)) x y
+  end.
+Definition sub_sh (fuel : nat) (x y : rnum) : option rnum := add_sh fuel x (rn_neg y).
+Definition mul_sh (fuel : nat) (x y : rnum) : option rnum :=
+  match x, y with
+  | RQ a, RQ b => Some (RQ (q_mul a b))
+  | _, _ =>
+    if (rn_sgn x =? 0) || (rn_sgn y =? 0) then Some (RQ (0, 1)) else
+    let r := psqfree (ann_mul (rn_poly x) (rn_poly y)) in
+    sel_shared fuel r (fun x y => RefAlg.iv_mul (rn_lo x) (rn_hi x) (rn_lo y) (rn_hi y)) x y
+  end.
+Definition div_sh (fuel : nat) (x y : rnum) : option rnum :=
+  match rn_inv fuel y with Some i => mul_sh fuel x i | None => None end.
+Definition pow_sh (fuel : nat) (x : rnum) (n : nat) : option rnum :=
+  match n with
+  | O => Some (RQ (1, 1))
+  | S O => Some x
+  | _ =>
+    match x with
+    | RQ q => Some (RQ (q_pow q (N.of_nat n)))
+    | RA p _ _ =>
+      if rn_sgn x =? 0 then Some (RQ (0, 1)) else
+      let r := psqfree (ann_pow p n) in
+      sel_shared fuel r (fun x _ => iv_pow (rn_lo x) (rn_hi x) n) x x
+    end
+  end.
+
+(* the two representations are literally the same (an operand struct that a const call did not touch) *)
+Fixpoint zl_eqb (a b : list Z) : bool :=
+  match a, b with
+  | [], [] => true
+  | x :: a', y :: b' => (x =? y) && zl_eqb a' b'
+  | _, _ => false
+  end.
+Definition q_eqrep (a b : rat) : bool := (fst a =? fst b) && (snd a =? snd b).
+Definition rn_eqrep (x y : rnum) : bool :=
+  match x, y with
+  | RQ a, RQ b => q_eqrep a b
+  | RA p lo hi, RA p' lo' hi' => zl_eqb p p' && q_eqrep lo lo' && q_eqrep hi hi'
+  | _, _ => false
+  end.
+
 (* the reference result exists and the printed representation is a valid representation of the same real *)
 Definition same_as (fuel : nat) (r : rnum) (o : option rnum) : bool :=
   match o with Some z => same_number fuel r z | None => false end.
@@ -49,20 +105,23 @@ Definition within_eps (x : rnum) (q eps : rat) : bool :=
   (0 <=? rn_cmp_q x (q_add q (q_neg eps))) && (rn_cmp_q x (q_add q eps) <=? 0).
 
 Definition accept_op (fuel : nat) (op : c07_op) (args : list rnum) (res : c07_result) : bool :=
+  match op, args, res with
+  | KSame, [x], VNum r => rn_eqrep x r || same_number fuel r (rn_norm x)
+  | _, _, _ =>
   match op, map rn_norm args, res with
-  | KAdd, [x; y], VNum r => same_as fuel r (rn_add fuel x y)
-  | KSub, [x; y], VNum r => same_as fuel r (rn_sub fuel x y)
-  | KMul, [x; y], VNum r => same_as fuel r (rn_mul fuel x y)
-  | KDiv, [x; y], VNum r => same_as fuel r (rn_div fuel x y)
+  | KAdd, [x; y], VNum r => same_as fuel r (add_sh fuel x y)
+  | KSub, [x; y], VNum r => same_as fuel r (sub_sh fuel x y)
+  | KMul, [x; y], VNum r => same_as fuel r (mul_sh fuel x y)
+  | KDiv, [x; y], VNum r => same_as fuel r (div_sh fuel x y)
   | KDiv, [x; y], VUndef => rn_sgn y =? 0
   | KNeg, [x], VNum r => same_number fuel r (rn_neg x)
   | KInv, [x], VNum r => same_as fuel r (rn_inv fuel x)
   | KInv, [x], VUndef => rn_sgn x =? 0
-  | KPow n, [x], VNum r => same_as fuel r (rn_pow_direct fuel x n)
+  | KPow n, [x], VNum r => same_as fuel r (pow_sh fuel x n)
   | KRoot n, [x], VNum r =>
     (* the result is a valid number >= 0 whose n-th power is the operand *)
     Nat.ltb 0 n && rn_valid r && (0 <=? rn_sgn (rn_norm r)) &&
-    match rn_pow_direct fuel (rn_norm r) n with
+    match pow_sh fuel (rn_norm r) n with
     | Some w => opt_is (rn_cmp fuel w x) 0
     | None => false
     end
@@ -82,6 +141,6 @@ Definition accept_op (fuel : nat) (op : c07_op) (args : list rnum) (res : c07_re
     if b then match rn_is_rational fuel x with Some w => w | None => false end else true
   | KToRat, [x], VRat q => q_is_canon q && (rn_cmp_q x q =? 0)
   | KApprox eps, [x], VRat q => within_eps x q eps
-  | KSame, [x], VNum r => same_number fuel r x
   | _, _, _ => false
+  end
   end.
